@@ -251,7 +251,7 @@ func (e *Exec) execVec(c *Cmd, sl *slots) (string, bool, bool) {
 					got = fmt.Sprintf("%d:%s", p.Number(), strconv.FormatFloat(float64(p.Score()), 'f', -1, 32))
 				}
 				if got != hstr {
-					return fmt.Sprintf("cnt=%d hits=%s%s advance-walk-differs-at=%d:%s", pl.Count(), hs, fired, i, got), true, true
+					return fmt.Sprintf("cnt=%d hits=advance-walk-differs-at-hit-%d(next:%s/advance:%s)/all-by-next:%s%s", pl.Count(), i, hstr, got, hs, fired), true, true
 				}
 			}
 		}
